@@ -19,8 +19,8 @@ RULE = ("seeded random programs through the public API (<= 4 variables, depth <=
         "variables, none/all/6 random beyond) x both routes: own refinement loop over z3 and over the `sugar` stub executable; "
         "back-end deduction mode over sugar_extended / csugar / enigma_csp / cspuz_core stubs (reference implementation of the "
         "deduction mode); oracle: the brute-force solution set -> common value or None per key; distinct = (program, keys, back end)")
-TECHNIQUE = "contract on Solver.solve (True iff satisfiable; key.sol = v iff every model has v, None iff two models disagree) evaluated end to end against brute force over the reference semantics, both refinement routes; bounded"
-LEVEL_TEXT = "exploration: end-to-end contract of solve() against brute force on generated programs and key subsets, through both refinement routes; loop-invariant proof of the refinement loop is added when it discharges"
+TECHNIQUE = "pyvc (proved): loop-by-loop contracts of Solver.solve and the model-theoretic lemma over them (ghost sort of models: a reported value holds in EVERY model, None is reported only when two models disagree, False only when no model exists) under the back-end contract proved for Z3Backend.solve / the deduction-mode protocol; plus contract on Solver.solve (True iff satisfiable; key.sol = v iff every model has v, None iff two models disagree) evaluated end to end against brute force over the reference semantics, both refinement routes; bounded"
+LEVEL_TEXT = "exploration: the refinement route is proved from the loop contracts to the statement (lemma over an uninterpreted sort of models) ASSUMING the back end decides the constraints it was given and that the refuting clause denotes what its literals say (per-operator contracts of C01); that assumption chain and the native deduction route are exercised end to end against brute force (bounded), so the check as a whole stays exploration"
 LEVEL_NOTE = "trusted: specs/den.py, specs/sugar_ref.py (deduction mode of the external solver), z3; scope: <= 4 variables, domains <= 4 values"
 TRUSTED = ["specs/den.py", "specs/sugar_ref.py", "z3 through cspuz's own back end"]
 ASSUMPTIONS = ["external solvers replaced by the reference implementation"]
